@@ -297,7 +297,12 @@ func (m *moCtx) stmt(s ast.Stmt) bool {
 						if len(x.Lhs) == 1 && len(call.Args) >= 1 {
 							if lse, ok := x.Lhs[0].(*ast.SelectorExpr); ok {
 								if ase, ok := call.Args[0].(*ast.SelectorExpr); ok && types.ExprString(lse) == types.ExprString(ase) {
-									if fv, ok := m.info.Uses[lse.Sel].(*types.Var); ok && fv.IsField() && m.searchOnlyField(fv) {
+									if fv, ok := m.info.Uses[lse.Sel].(*types.Var); ok && fv.IsField() {
+										if m.searchOnlyField(fv) {
+											return true
+										}
+										// otherwise it must be sorted before its next use, like a local
+										m.slices[fv] = true
 										return true
 									}
 								}
@@ -423,6 +428,9 @@ func (m *moCtx) sortedAfter(fd *ast.FuncDecl, rs *ast.RangeStmt) bool {
 				if id, ok := call.Args[0].(*ast.Ident); ok && m.info.Uses[id] == sl {
 					okSort = true
 				}
+				if se, ok := call.Args[0].(*ast.SelectorExpr); ok && m.info.Uses[se.Sel] == sl {
+					okSort = true
+				}
 			}
 		}
 		if !okSort {
@@ -453,7 +461,14 @@ func (e *Env) RMapOrder(filter func(mapRange) bool) {
 		ok := m.stmts(mr.rs.Body.List) && m.sortedAfter(mr.fd, mr.rs)
 		key := "map range " + mr.name + " is order-insensitive"
 		if !ok {
-			if why, frozen := mapOrderFrozen[mr.name]; frozen {
+			why, frozen := mapOrderFrozen[mr.name]
+			if !frozen {
+				// the children switch of Walk may live in a helper: same exception as for Walk
+				if w := e.Sib.ByName["walk"]; w != nil && w.Func == mr.fd && w.Frame != nil {
+					why, frozen = mapOrderFrozen[mr.pkg.PkgPath+"."+load.FuncName(w.Frame)+" "+types.ExprString(mr.rs.X)]
+				}
+			}
+			if frozen {
 				e.Run.OK("R-MAPORDER", key, e.Prog.Pos(mr.rs.Pos()), "frozen exception: "+why)
 				continue
 			}
@@ -513,9 +528,31 @@ func (m *moCtx) comparatorTotal(fd *ast.FuncDecl, call *ast.CallExpr, sl types.O
 		if !ok {
 			return false
 		}
-		b, ok1 := ix.X.(*ast.Ident)
 		k, ok2 := ix.Index.(*ast.Ident)
-		return ok1 && ok2 && m.info.Uses[b] == sl && m.info.Uses[k] == idx
+		if !ok2 || m.info.Uses[k] != idx {
+			return false
+		}
+		switch b := ix.X.(type) {
+		case *ast.Ident:
+			return m.info.Uses[b] == sl
+		case *ast.SelectorExpr:
+			return m.info.Uses[b.Sel] == sl
+		}
+		return false
+	}
+	// the files of one package occupy disjoint position ranges of the file set: their Pos() is a
+	// key that distinguishes them
+	filePos := func(x ast.Expr, idx types.Object) bool {
+		call, ok := ast.Unparen(x).(*ast.CallExpr)
+		if !ok || len(call.Args) != 0 {
+			return false
+		}
+		se, ok := call.Fun.(*ast.SelectorExpr)
+		if !ok || se.Sel.Name != "Pos" || !elem(se.X, idx) {
+			return false
+		}
+		_, tn := namedOf(m.info.TypeOf(se.X))
+		return tn == "File"
 	}
 	direct := func(x ast.Expr, a, b func(ast.Expr) bool) bool {
 		be, ok := x.(*ast.BinaryExpr)
@@ -524,6 +561,11 @@ func (m *moCtx) comparatorTotal(fd *ast.FuncDecl, call *ast.CallExpr, sl types.O
 	isI := func(x ast.Expr) bool { return elem(x, iObj) }
 	isJ := func(x ast.Expr) bool { return elem(x, jObj) }
 	if direct(rs.Results[0], isI, isJ) || direct(rs.Results[0], isJ, isI) {
+		return ""
+	}
+	isFI := func(x ast.Expr) bool { return filePos(x, iObj) }
+	isFJ := func(x ast.Expr) bool { return filePos(x, jObj) }
+	if direct(rs.Results[0], isFI, isFJ) || direct(rs.Results[0], isFJ, isFI) {
 		return ""
 	}
 	inner, ok := rs.Results[0].(*ast.CallExpr)
